@@ -113,6 +113,35 @@ def run(tier):
             raise MachineryError(f"witness for {key} does not reproduce against the real code: exc={r['exc']} id={r['cls']} delivered={delivered}")
         ck.violation(key, f"{key} (n={n}, {conn}, class {cid}): delivered circuit has {actual} two-qubit gates, a circuit with {dmin} exists: {t['gates']}",
                      {"key": key, "n": n, "conn": conn, "id": cid, "table_cost": actual, "min_cost": dmin, "witness": t["gates"], "trace": t})
+    # the DELIVERED circuits (table circuit composed with a layer, cancelled, sign-repaired): for the graph state of every table line and a locally
+    # rotated member, measured by the tableau machine and compared with the minimum of the class the spec assigns to the target
+    from .. import sweep
+    inputs = sweep.inputs_table_graphs(L)
+    extra_in = []
+    for inp in inputs:
+        if inp["n"] >= 4 and ck.rng.random() < (0.5 if quick else 1.0):
+            layer = impl.random_local_layer(inp["n"], ck.rng)
+            extra_in.append(dict(inp, codes=impl.remix(impl.apply_gates_codes(layer, inp["codes"]), ck.rng), graph=None, program=inp["program"] + layer))
+    jobs2 = sweep.expand_jobs(inputs + extra_in, ["prep"] if quick else ["prep", "readout", "compress"], ck.rng, formats=False)
+    traces, verdicts = sweep.run_jobs(ck, L, jobs2, "delivered")
+    known_keys = {key for (key, *_rest) in nonopt}
+    for t, (cl, extra) in zip(traces, verdicts):
+        if t["raised"] or cl & {"state", "diag", "unknown-gate", "uncoupled"}:
+            continue                                    # not a correct circuit at all: C01/C02/C03 business
+        c, _, line = [int(x) for x in extra.split(",")]
+        if line <= 0:
+            continue
+        key = f"stabilizer{t['n']}-{t['conn']}#{line - 1}"
+        dmin = dist[(t["n"], t["conn"])][line - 1][0]
+        ck.count(("delivered", t["kind"], key, str(t["target"] or t["program"])), dmin > 0)
+        if c < dmin:
+            raise MachineryError(f"{key}: delivered {t['kind']} circuit has {c} two-qubit gates, the model says the minimum is {dmin}")
+        if c > dmin and key not in known_keys:
+            ck.violation("delivered " + key, f"{t['kind']} circuit delivered for a state of class {line - 1} on {t['n']}-{t['conn']} has {c} two-qubit gates, minimum is {dmin} "
+                         f"(the table circuit itself is minimal): target {t['target'] or t['program']}", {"trace": t, "delivered": c, "min_cost": dmin})
+        elif c == dmin:
+            ck.accepted()
+    ck.cov["delivered_circuits_measured"] = len(traces)
     ck.cov["non_minimal_entries"] = len(nonopt)
     ck.cov["table_entries"] = len(keep)
     ck.sample({"config": "6-linear", "class": 4, "min_cost": dist[(6, "linear")][4][0], "witness_path": dist[(6, "linear")][4][1]})
@@ -131,6 +160,9 @@ def replay(path):
     p = json.load(open(path))["payload"]
     L = impl.lib()
     t = p["trace"]
+    if t["kind"] != "witness":
+        from .. import sweep
+        return sweep.replay_trace(path, {"cost"})
     v, _ = core.validate_traces("TraceCircuit", [t], files={"Exported.tla": core.exported_module(L)}, jvms=1)
     r = workers.api_call({"api": "prep", "n": t["n"], "conn": t["conn"], "codes": [], "fmt": "circuit", "program": t["gates"]})
     delivered = sum(3 if g[0] == "swap" else 1 for g in r["gates"] if g[2] >= 0)
